@@ -277,14 +277,14 @@ fn circles(rng: &mut Rng) {
 pub fn run(rng: &mut Rng, n: usize) {
     for _ in 0..n {
         for _ in 0..4 {
-            polynomials(rng);
+            case("fit.case", "c09.library_call_panics", || polynomials(rng));
         }
         for _ in 0..2 {
-            polynomials_scaled(rng);
+            case("fit.case", "c09.library_call_panics", || polynomials_scaled(rng));
         }
         for _ in 0..2 {
-            lines_scaled(rng);
+            case("fit.case", "c09.library_call_panics", || lines_scaled(rng));
         }
-        circles(rng);
+        case("fit.case", "c09.library_call_panics", || circles(rng));
     }
 }
